@@ -72,7 +72,7 @@ def contracts():
                         lemma_filter_map(self.query_log@, p, inst_fn(), m);
                         assert(self.query_log@.filter(p).map_values(inst_fn()).len() == self.query_log@.filter(p).len());
                         if m < inst_floor() { lemma_all_newer(self.query_log@, m); }
-                        assert(nb_req == newer(self.log(), m).len());
+                        assert(nb_req == newer(self.log(), m).len()); //@C09.the_count_is_the_number_of_logged_requests_in_the_window,C19.the_count_is_the_number_of_logged_requests_in_the_window
                         if nb_req >= *max_allowed {
                             lemma_newer_antitone(self.log(), old(w).clock - self.lim()[l].1, m);
                         }
